@@ -12,41 +12,43 @@ import (
 
 // Profile steers the distribution of one campaign.
 type Profile struct {
-	Name             string
-	GenericPct       int // % of interfaces that are generic
-	MinDeps          int
-	MaxDeps          int
-	StdPct           int  // % chance that a named-type draw picks a std package
-	Conflict         bool // bias dependency paths towards colliding names
-	AdvNames         bool // adversarial parameter name pools
-	AdvNamesPct      int  // % of worlds that use the adversarial pools although AdvNames is off
-	MaxIfaces        int
-	MaxMethods       int
-	MaxParams        int
-	MaxResults       int
-	MaxDepth         int
-	EmbedPct         int
-	AliasPct         int  // % chance a source import gets an alias
-	DestOther        int  // % other-package destination
-	DestTest         int  // % <src>_test destination
-	DestSame         int  // % explicit -pkg <src name>
-	OutFilePct       int  // % of cases using -out instead of stdout
-	ExecSafe         bool // harness X: shapes the reflective driver can build values for
-	InPlaceOnly      bool
-	FmtDefault       bool   // only the default formatter
-	MultiArgPct      int    // % of cases with >1 interface argument
-	UnnamedPct       int    // % of signatures with unnamed parameters
-	GopathPct        int    // % of worlds in GOPATH+vendor layout
-	ModPath          string // module-relative import path prefix of the world (default example.com/w, own go.mod)
-	DiffAliasPct     int    // % of worlds with an extra source file importing used packages under other aliases
-	MockLikeParamPct int    // chance (per argument) of a mock type named like a parameter of the interface
-	SameAliasPct     int    // % of aliased imports that reuse an alias another file gave to a DIFFERENT package
-	LiteralAliasPct  int    // % of non-generic interfaces declared as alias of an interface literal
-	NoDotBlank       bool   // no dot / blank imports in the source files
-	UniqueAliases    bool   // never use one alias for two different paths (known finding F-K, harness F)
-	ShadowPct        int    // % of signatures in which earlier parameters are named like the packages a later parameter type mentions
-	Evolve           bool   // also render a second version of the source (first requested literal interface gains a method)
-	MultiRefPct      int    // % bias towards dependency interfaces whose one method type mentions several same-named packages
+	Name              string
+	GenericPct        int // % of interfaces that are generic
+	MinDeps           int
+	MaxDeps           int
+	StdPct            int  // % chance that a named-type draw picks a std package
+	Conflict          bool // bias dependency paths towards colliding names
+	AdvNames          bool // adversarial parameter name pools
+	AdvNamesPct       int  // % of worlds that use the adversarial pools although AdvNames is off
+	MaxIfaces         int
+	MaxMethods        int
+	MaxParams         int
+	MaxResults        int
+	MaxDepth          int
+	EmbedPct          int
+	AliasPct          int  // % chance a source import gets an alias
+	DestOther         int  // % other-package destination
+	DestTest          int  // % <src>_test destination
+	DestSame          int  // % explicit -pkg <src name>
+	OutFilePct        int  // % of cases using -out instead of stdout
+	ExecSafe          bool // harness X: shapes the reflective driver can build values for
+	InPlaceOnly       bool
+	FmtDefault        bool   // only the default formatter
+	MultiArgPct       int    // % of cases with >1 interface argument
+	UnnamedPct        int    // % of signatures with unnamed parameters
+	GopathPct         int    // % of worlds in GOPATH+vendor layout
+	ModPath           string // module-relative import path prefix of the world (default example.com/w, own go.mod)
+	GenericAliasBoost int    // additional % of instantiated-generic interfaces declared as generic alias
+	TwinPct           int    // additional % of worlds with a build-constrained twin interface
+	DiffAliasPct      int    // % of worlds with an extra source file importing used packages under other aliases
+	MockLikeParamPct  int    // chance (per argument) of a mock type named like a parameter of the interface
+	SameAliasPct      int    // % of aliased imports that reuse an alias another file gave to a DIFFERENT package
+	LiteralAliasPct   int    // % of non-generic interfaces declared as alias of an interface literal
+	NoDotBlank        bool   // no dot / blank imports in the source files
+	UniqueAliases     bool   // never use one alias for two different paths (known finding F-K, harness F)
+	ShadowPct         int    // % of signatures in which earlier parameters are named like the packages a later parameter type mentions
+	Evolve            bool   // also render a second version of the source (first requested literal interface gains a method)
+	MultiRefPct       int    // % bias towards dependency interfaces whose one method type mentions several same-named packages
 }
 
 func DefaultProfile() Profile {
@@ -998,7 +1000,7 @@ func (g *G) sig(depth int, inner bool) *Sig {
 			g.label("param:shadows-two-later-imports")
 		}
 	}
-	if named && !inner && np >= 2 && !g.Open["F-L"] && g.Chance(5) {
+	if named && !inner && np >= 2 && !g.Open["F-L"] && g.Chance(8) {
 		// a parameter named like a source-package type which a LATER parameter mentions only as the type argument
 		// of an instantiated generic type or generic alias
 		var gens []namedCand
@@ -1015,6 +1017,11 @@ func (g *G) sig(depth int, inner bool) *Sig {
 		}
 		if len(gens) > 0 && len(locals) > 0 {
 			gn := gens[g.Int(0, len(gens)-1)]
+			for _, c := range gens {
+				if c.d.Alias && g.Chance(50) {
+					gn = c // generic aliases keep their own type-argument list
+				}
+			}
 			l := locals[g.Int(0, len(locals)-1)]
 			j := np - 1
 			i := g.Int(0, j-1)
@@ -1034,7 +1041,11 @@ func (g *G) sig(depth int, inner bool) *Sig {
 			}
 		}
 	}
-	if named && !inner && np >= 2 && !g.Open["F-F"] && g.Chance(5) {
+	dupPct := 5
+	if g.P.AdvNames {
+		dupPct = 9
+	}
+	if named && !inner && np >= 2 && !g.Open["F-F"] && g.Chance(dupPct) {
 		// two parameters whose record fields collide (id / Id -> ID) and, half of the time, the first numbered
 		// name already taken by a third one (Id2)
 		i := g.Int(0, np-2)
@@ -1050,7 +1061,7 @@ func (g *G) sig(depth int, inner bool) *Sig {
 				s.Params[j].Name = v
 				used[v] = true
 				g.label("param:case-fold-dup")
-				if np >= 3 && g.Chance(50) {
+				if np >= 3 && g.Chance(70) {
 					k := g.Int(0, np-1)
 					third := v + "2"
 					if g.Chance(50) {
@@ -1229,7 +1240,7 @@ func (g *G) genLocals() {
 			}
 		}
 	}()
-	if !g.P.ExecSafe && g.Chance(6) {
+	if !g.P.ExecSafe && g.Chance(4+g.P.TwinPct) {
 		// an interface whose method set depends on the build configuration: declared twice, in two files with
 		// complementary build constraints. moq has to see what the go command sees by default.
 		exported := !g.inPlace || g.Chance(60)
@@ -1553,7 +1564,7 @@ func (g *G) genIface(cfgSkipEnsure bool) *Iface {
 		g.label("iface:alias")
 		return it
 	}
-	if k < 10 {
+	if k < 10+g.P.GenericAliasBoost/6 {
 		cs := g.ifaceCands(true)
 		if len(cs) > 0 {
 			nc := cs[g.Int(0, len(cs)-1)]
@@ -1561,11 +1572,11 @@ func (g *G) genIface(cfgSkipEnsure bool) *Iface {
 			for i := 0; i < nc.d.NTParams; i++ {
 				t.Args = append(t.Args, g.ty(tyCtx{depth: 1}))
 			}
-			if g.Chance(25) && !g.excluded("F-M") && !g.P.ExecSafe {
+			if g.Chance(25+g.P.GenericAliasBoost) && !g.excluded("F-M") && !g.P.ExecSafe {
 				// generic alias: type X[T any] = G[T]
 				tpn := g.Pick(tparamNames)
 				it.TParams = []TParamDecl{{Name: tpn, ConSrc: "any", Kind: "any"}}
-				if g.Chance(50) && (cfgSkipEnsure || !g.Open["F-C"]) {
+				if g.Chance(65) && (cfgSkipEnsure || !g.Open["F-C"]) {
 					// the alias may narrow the constraint (the target accepts any): forms the explicit self-check cannot spell
 					con := g.Pick([]string{"comparable", "~int | ~string", "interface{ ~int | ~uint8; String() string }", "interface{ comparable; String() string }", "interface{ Less(" + tpn + ") bool }"})
 					it.TParams[0].ConSrc, it.TParams[0].Kind = con, "alias-narrowed"
@@ -1613,6 +1624,11 @@ func (g *G) genIface(cfgSkipEnsure bool) *Iface {
 				continue
 			}
 			nc := cs[g.Int(0, len(cs)-1)]
+			for _, c := range cs {
+				if c.d.Twin[0] != "" && !generic && g.Chance(60) {
+					nc = c // the build-constrained twin, if the world has one
+				}
+			}
 			clash := false
 			for _, m := range nc.d.Methods {
 				if it.AllMeths[m] {
@@ -2110,6 +2126,16 @@ func (g *G) Case() *core.Case {
 	ni := g.Int(1, g.P.MaxIfaces)
 	for i := 0; i < ni; i++ {
 		g.ifaces = append(g.ifaces, g.genIface(cfg.SkipEnsure))
+	}
+	if nested != nil {
+		// the interfaces mention a type of the package below the source directory
+		for _, it := range g.ifaces {
+			if it.AliasOf == nil && it.DefOf == nil {
+				mn := g.freshMethod()
+				it.AllMeths[mn] = true
+				it.Methods = append(it.Methods, Meth{Name: mn, Sig: &Sig{Params: []Param{{Name: "v", T: &Ty{K: KNamed, Name: nested.Decls[0].Name, Pkg: nested, Cmp: nested.Decls[0].Cmp}}}}})
+			}
+		}
 	}
 	g.assignFiles()
 	g.avoidRetroRenames()
